@@ -142,9 +142,9 @@ func forEachCase(part string, thorough bool, f func(c *Case) bool) {
 			}
 		}
 	case "conc":
-		rounds := 6
+		rounds := 40
 		if thorough {
-			rounds = 40
+			rounds = 200
 		}
 		for round := 0; round < rounds; round++ {
 			for _, n := range []int{24, 8, 2} {
